@@ -2,7 +2,7 @@
 // generated .gkf, adjusted the way src/gama-local.cpp does it, then every statistic accessor is printed
 // next to the inputs of its formula (all doubles as hex bit patterns).
 //
-// protocol (stdin):   load <path.gkf> <algorithm|-> [cov]
+// protocol (stdin):   load <path.gkf> <algorithm|->     |     accept <hex double>   (conf_pr setter guard)
 // output, one line per reported quantity,   <kind> <inputs...> => <reported values...>
 //   dof   rows cols defect                                  => dof
 //   m0    act sigmaApr phi dof                              => m_0() m_0_aposteriori_value()
@@ -121,6 +121,16 @@ int main()
           catch (const GNU_gama::Exception::matvec& e) { std::cout << "fail matvec " << e.error() << "\n"; }
           catch (const std::exception& e) { std::cout << "fail std-exception\n"; }
           catch (...) { std::cout << "fail unknown-exception\n"; }
+        }
+      else if (t.size() == 2 && t[0] == "accept")     // LocalNetwork::conf_pr(double): stored or thrown?
+        {
+          LocalNetwork net;
+          const double before = net.conf_pr();
+          const double p = vp::unhex(t[1]);
+          bool ok = true;
+          try { net.conf_pr(p); } catch (const GNU_gama::local::Exception&) { ok = false; }
+          const bool stored = ok ? (net.conf_pr() == p || (p != p)) : (net.conf_pr() == before);
+          std::cout << "flag " << (ok ? 1 : 0) << (stored ? "" : " inconsistent-state") << "\n";
         }
       else std::cout << "bad-op\n";
       std::cout.flush();
